@@ -438,6 +438,26 @@ func (p *C12) Generate(seed uint64, run int) *Case {
 		})
 		add("history", func(st *Step) { st.CarryFrom = &warm })
 	}
+	if b.Input != nil && r.Chance(1, 4) {
+		// history: an earlier run of the command with the same -o FAILED (a
+		// broken input); whatever it left behind is still there when the good
+		// command runs
+		warm := len(c.Steps)
+		add("history:warm-up", func(st *Step) {
+			st.Argv = append(st.Argv, "-o", outPath)
+			bb := Base{Class: b.Class, Input: append([]byte{}, b.Input...)}
+			switch b.Class {
+			case "text":
+				st.Stdin.Data = append(append([]byte{}, b.Input...), []byte(" ]] [")...)
+			default:
+				st.Stdin.Data = append([]byte("{ not yaml: [\n"), bb.Input...)
+			}
+		})
+		add("history", func(st *Step) {
+			st.Argv = append(st.Argv, "-o", outPath)
+			st.CarryFrom = &warm
+		})
+	}
 	// the real runtime: two plain repetitions (not replayable; see Appendix B)
 	add("plain", func(st *Step) { st.Plain = true })
 	add("plain", func(st *Step) { st.Plain = true })
